@@ -398,3 +398,42 @@ def frag_ctor():
     if not any(e[1] == "copy" for e in entries) or not any(e[3] for e in entries):
         raise ValueError("constructor table incomplete")
     return True, text, ""
+
+
+@fragment("DispatchFrag")
+def frag_dispatch():
+    """call expressions that both read the event from an argument and forward the same argument: is the read
+    sequenced before the forwarding (own statement / braced initialiser list) or an unsequenced sibling argument?"""
+    out = {}
+    src = strip_comments(read_src("include/eventpp/eventdispatcher.h"))
+    bodies = re.findall(r"void dispatch\((?:T && first, )?Args \.\.\.args\) const\s*\{(.*?)\n\t\}", src, re.S)
+    if len(bodies) != 2:
+        raise ValueError("expected the two dispatch() bodies, found %d" % len(bodies))
+    for i, b in enumerate(bodies):
+        n = BoolExpr.norm(b)
+        n = re.sub(r"static_assert\(.*?\);", "", n)
+        n = re.sub(r"usingGetEvent=.*?::Type;", "", n)
+        if re.fullmatch(r"constEvent(&)?event=GetEvent::getEvent\((std::forward<T>\(first\),)?args\.\.\.\);directDispatch\(event,std::forward<Args>\(args\)\.\.\.\);", n):
+            out["dispatch%d" % i] = True
+        elif re.fullmatch(r"directDispatch\(GetEvent::getEvent\((std::forward<T>\(first\),)?args\.\.\.\),std::forward<Args>\(args\)\.\.\.\);", n):
+            out["dispatch%d" % i] = False
+        else:
+            raise ValueError("dispatch() body not recognised: " + n)
+    src = strip_comments(read_src("include/eventpp/eventqueue.h"))
+    calls = re.findall(r"doEnqueue\(QueuedEvent(\{|\()\s*GetEvent::getEvent\(", src)
+    if len(calls) != 2:
+        raise ValueError("expected two enqueue() call sites building a QueuedEvent, found %d" % len(calls))
+    out["enqueueBraced"] = all(c == "{" for c in calls)      # braced initialiser lists are evaluated left to right
+    src = strip_comments(read_src("include/eventpp/hetereventqueue.h"))
+    n = BoolExpr.norm(src)
+    inside = len(re.findall(r"doEnqueueItem\(QueuedItemType\(PrototypeInfo::index,GetEvent::getEvent\(", n))
+    before = len(re.findall(r"constEventType_event=GetEvent::getEvent\(std::forward<T>\(first\),args\.\.\.\);doEnqueueItem\(QueuedItemType\(PrototypeInfo::index,event,", n))
+    if inside + before != 2:
+        raise ValueError("heterogeneous doEnqueue call sites not recognised (%d inside, %d before)" % (inside, before))
+    out["heterEnqueue"] = inside == 0
+    text = GEN_HEADER % "eventdispatcher.h dispatch x2, eventqueue.h enqueue x2, hetereventqueue.h doEnqueue x2"
+    text += "namespace Evp.Gen.Dispatch\n\n/-- for each call expression: is reading the event sequenced before forwarding the arguments? -/\n"
+    for k, v in out.items():
+        text += "def %s : Bool := %s\n" % (k, "true" if v else "false")
+    text += "\ndef allSequenced : Bool := " + " && ".join(out.keys()) + "\n\nend Evp.Gen.Dispatch\n"
+    return True, text, ""
